@@ -109,16 +109,18 @@ where
         writeln!(writer, "pub struct {rust_name} {{")?;
         for (part_name, header) in &soap_operation.headers {
             let field_name = as_field_name(part_name);
-            let rust_type = header.rust_type.xml_name().expect("xml_name not found");
+            // the header element is the one the part refers to: its own name on the wire, its struct as type
+            let xml_name = header.rust_type.xml_name().expect("xml_name not found");
+            let rust_type = to_pascal_case(xml_name);
 
             if let Some(namespace) = header.in_namespace.as_ref() {
                 let abbreviation = namespace.abbreviation.as_str();
                 writeln!(
                     writer,
-                    "#[yaserde(prefix = \"{abbreviation}\", rename = \"{part_name}\")]"
+                    "#[yaserde(prefix = \"{abbreviation}\", rename = \"{xml_name}\")]"
                 )?;
             } else {
-                writeln!(writer, "    #[yaserde(rename = \"{part_name}\")]")?;
+                writeln!(writer, "    #[yaserde(rename = \"{xml_name}\")]")?;
             }
 
             // todo: we should check if the "mustUnderstand" == 1 to make the field required
